@@ -89,6 +89,7 @@ def tokSexp : Parse.Tok → Sexp
   | .n v => ofNat v
   | .g ts => .list (toksSexp ts)
   | .nm n m al ts => .list [.atom "nm", ofChars n, ofBool m, ofBool al, .list (toksSexp ts)]
+  | .hid ts => .list [.atom "hid", .list (toksSexp ts)]
 def toksSexp : List Parse.Tok → List Sexp
   | [] => []
   | t :: ts => tokSexp t :: toksSexp ts
